@@ -64,53 +64,56 @@ fn finish<O>(a: Collected<O>, b: Collected<O>) {
     witness!("tags compared");
     std::mem::forget((a, b));
 }
+fn finish1<O>(b: Collected<O>) {
+    witness!("tags compared");
+    std::mem::forget(b);
+}
 
 /// One-to-one sync block (macro-generated work): same index.
 pub fn sync_identity(l: usize, cap: usize, sched: &[(usize, usize)], br: usize, tagpos: &[usize]) {
     let c: u8 = any();
     let input = sym_vec::<u8>(l);
     let tags = in_tags(tagpos);
-    let (a, b) = ab_11(&|src| XorConst::new(src, c), &input, &tags, cap, sched, l.max(1), 3, br);
+    let b = run_b_11(&|src| XorConst::new(src, c), &input, &tags, cap, sched, br);
     let mut e = Vec::with_capacity(4);
     for t in tags.iter() {
         e.push(expect_of(t, t.abs));
     }
-    check_tags(&a, &e);
     check_tags(&b, &e);
+    assert!(b.data.len() == l, "sync block lost or duplicated samples");
     std::mem::forget((input, tags, e));
-    finish(a, b);
+    finish1(b);
 }
 
 /// Skip: tags of samples after the skipped prefix move down by `s`.
 pub fn skip(l: usize, cap: usize, sched: &[(usize, usize)], br: usize, s: usize, tagpos: &[usize]) {
     let input = sym_vec::<u8>(l);
     let tags = in_tags(tagpos);
-    let (a, b) = ab_11(&|src| Skip::new(src, s), &input, &tags, cap, sched, l.max(1), 4, br);
+    let b = run_b_11(&|src| Skip::new(src, s), &input, &tags, cap, sched, br);
     let mut e = Vec::with_capacity(4);
     for t in tags.iter() {
         if t.abs >= s {
             e.push(expect_of(t, t.abs - s));
         }
     }
-    check_tags(&a, &e);
     check_tags(&b, &e);
     std::mem::forget((input, tags, e));
-    finish(a, b);
+    finish1(b);
 }
 
 /// Delay: shifted by the delay.
 pub fn delay(l: usize, cap: usize, sched: &[(usize, usize)], br: usize, d: usize, tagpos: &[usize]) {
     let input = sym_vec::<u8>(l);
     let tags = in_tags(tagpos);
-    let (a, b) = ab_11(&|src| Delay::new(src, d), &input, &tags, cap, sched, l + d + 1, 4, br);
+    let b = run_b_11(&|src| Delay::new(src, d), &input, &tags, cap, sched, br);
     let mut e = Vec::with_capacity(4);
     for t in tags.iter() {
         e.push(expect_of(t, t.abs + d));
     }
-    check_tags(&a, &e);
     check_tags(&b, &e);
+    assert!(b.data.len() == l + d, "Delay output count differs from delay + input");
     std::mem::forget((input, tags, e));
-    finish(a, b);
+    finish1(b);
 }
 
 /// Tee: both outputs, same index.
@@ -175,7 +178,8 @@ pub fn cac_tag(l: usize, cap: usize, sched: &[(usize, usize)], br: usize, codele
         }
         CorrelateAccessCodeTag::new(src, c, "s", allowed)
     };
-    let (a, b) = ab_11(&mk, &input, &tags, cap, sched, l.max(1), 3, br);
+    let b = run_b_11(&mk, &input, &tags, cap, sched, br);
+    let a = &b;
     let mut e = Vec::with_capacity(MAXV);
     for t in tags.iter() {
         e.push(expect_of(t, t.abs));
@@ -193,7 +197,6 @@ pub fn cac_tag(l: usize, cap: usize, sched: &[(usize, usize)], br: usize, codele
             e.push(etag(i, "s", 1, diffs as u64));
         }
     }
-    check_tags(&a, &e);
     check_tags(&b, &e);
     // data passes through unchanged
     assert!(a.data.len() == l);
@@ -201,7 +204,7 @@ pub fn cac_tag(l: usize, cap: usize, sched: &[(usize, usize)], br: usize, codele
         assert!(a.data[i] == input[i], "CorrelateAccessCodeTag must pass the data through");
     }
     std::mem::forget((input, code, tags, e));
-    finish(a, b);
+    finish1(b);
 }
 
 /// BurstTagger: a tag "b" = Bool(level) on every sample where the trigger crosses the
